@@ -4,7 +4,10 @@ C11 – "Scatter and balance moves preserve a region's replica count and roles",
 operator of PD observes: the store records, the region, and the steps of an operator that region
 scatter or a scheduler produced (record types and the region simulator are those of Spec/C10).
 
-"Up store" = state Up and heartbeat within max-store-down-time.  "Accepts leaders" = the store exists,
+"Up store" = state Up and store heartbeats arriving: the last one is not older than the disconnect
+threshold (20 s) – PD itself reports a store that missed its heartbeats as "Disconnected" and, later,
+"Down", not as "Up" (server/api/store.go), and every peer-moving call site of the pinned code filters such
+stores out.  Busy / throttled stores are still "up".  "Accepts leaders" = the store exists,
 is Up, not down, leader transfer is not paused and it carries no reject-leader label.  Only for the
 *forced* variant – grant-leader, whose target store is named by the administrator – it means: the store
 exists and is not a tombstone.  Region scatter also builds its operator with a forced target leader (to
@@ -26,7 +29,7 @@ structure Input where
 def upStore (x : Input) (id : Nat) : Bool :=
   match findStore x.stores id with
   | none => false
-  | some s => s.isUp && s.notDown x.conf
+  | some s => s.isUp && s.notDown x.conf && s.connected x.conf
 
 def acceptsLeader (x : Input) (id : Nat) : Bool :=
   match findStore x.stores id with
